@@ -209,6 +209,8 @@ def gen_budget(rnd, nsources=None, rules='random', views=None, supplemental=None
                              {'name': 'LeapDays', 'locals': [], 'filter': 'count(by("day")) >= 2'}]
             b['views'] = (gl, vs)
     b['currency'] = rnd.choice([None, '${amount}', '{amount} zl', '€{amount}'])
+    # settings that name no rules file at all: config/merchants.rules is then used by convention (a budget run with a second settings file)
+    b['implicit_rules_file'] = kind == 'rules' and rnd.random() < .15
     return b
 
 
@@ -216,7 +218,7 @@ def settings_dict(b):
     s = {'year': 2025, 'data_sources': [dict(x['settings']) for x in b['sources']]}
     if b['supplemental']:
         s['data_sources'].insert(0, dict(b['supplemental']['settings']))
-    if b['rules_kind'] == 'rules':
+    if b['rules_kind'] == 'rules' and not b.get('implicit_rules_file'):
         s['merchants_file'] = 'config/merchants.rules'
     if b['rule_mode']:
         s['rule_mode'] = b['rule_mode']
